@@ -8,40 +8,40 @@ import FluteModel.Lemmas.NoCodeDec
 namespace Flute.FecDec
 
 /-- contract of the external codecs for one source block with `k` source symbols of `e` bytes -/
-structure CodecOK (c : Codec) (sym : Nat → Bytes) (k e sbn : Nat) (D : Bytes) : Prop where
+structure CodecOK (c : Codec) (sch : Scheme) (sym : Nat → Bytes) (k e sbn : Nat) (D : Bytes) : Prop where
   /-- RS: reconstructing from genuine shards yields genuine shards -/
-  rs : ∀ p shards shards', SlotsOK sym 0 shards → c.rsReconstruct k p shards = some shards' → SlotsOK sym 0 shards'
+  rs : (sch = .rs28 ∨ sch = .rs28us) → ∀ p shards shards', SlotsOK sym 0 shards → c.rsReconstruct k p shards = some shards' → SlotsOK sym 0 shards'
   /-- RaptorQ: whatever is decoded from genuine symbols is the block -/
-  rq : ∀ ss pushes d, (∀ q ∈ pushes, q.2 = sym q.1) → c.rqData sbn k e ss pushes = some d → d = D
+  rq : sch = .raptorQ → ∀ ss pushes d, (∀ q ∈ pushes, q.2 = sym q.1) → c.rqData sbn k e ss pushes = some d → d = D
   /-- Raptor -/
-  r : ∀ bs pushes d, (∀ q ∈ pushes, q.2 = sym q.1) → c.rDecode k bs pushes = some d → d = D
+  r : sch = .raptor → ∀ bs pushes d, (∀ q ∈ pushes, q.2 = sym q.1) → c.rDecode k bs pushes = some d → d = D
 
 /-- a decoder of the block that only ever saw genuine symbols -/
-def DecOK (sym : Nat → Bytes) (k e sbn : Nat) (D : Bytes) : Dec → Prop
+def DecOK (sch : Scheme) (sym : Nat → Bytes) (k e sbn : Nat) (D : Bytes) : Dec → Prop
   | .noCode shards _ data =>
       D = genuineConcat sym 0 k ∧ shards.length = k ∧ SlotsOK sym 0 shards ∧ (∀ x, data = some x → x = D)
   | .rs k' _ shards block _ _ =>
-      D = genuineConcat sym 0 k ∧ k' = k ∧ SlotsOK sym 0 shards ∧ (∀ x, block = some x → x = D)
+      (sch = .rs28 ∨ sch = .rs28us) ∧ D = genuineConcat sym 0 k ∧ k' = k ∧ SlotsOK sym 0 shards ∧ (∀ x, block = some x → x = D)
   | .rq sbn' k' e' _ pushes data =>
-      sbn' = sbn ∧ k' = k ∧ e' = e ∧ (∀ q ∈ pushes, q.2 = sym q.1) ∧ (∀ x, data = some x → x = D)
+      sch = .raptorQ ∧ sbn' = sbn ∧ k' = k ∧ e' = e ∧ (∀ q ∈ pushes, q.2 = sym q.1) ∧ (∀ x, data = some x → x = D)
   | .raptor k' _ pushes data =>
-      k' = k ∧ (∀ q ∈ pushes, q.2 = sym q.1) ∧ (∀ x, data = some x → x = D)
+      sch = .raptor ∧ k' = k ∧ (∀ q ∈ pushes, q.2 = sym q.1) ∧ (∀ x, data = some x → x = D)
 
-theorem decOK_sourceBlock {sym : Nat → Bytes} {k e sbn : Nat} {D : Bytes} {d : Dec} (h : DecOK sym k e sbn D d)
+theorem decOK_sourceBlock {sch : Scheme} {sym : Nat → Bytes} {k e sbn : Nat} {D : Bytes} {d : Dec} (h : DecOK sch sym k e sbn D d)
     (x : Bytes) (hx : d.sourceBlock = some x) : x = D := by
   cases d with
   | noCode shards nb data => exact h.2.2.2 x hx
-  | rs k' p shards block a b => exact h.2.2.2 x hx
-  | rq s k' e' ss pushes data => exact h.2.2.2.2 x hx
-  | raptor k' bs pushes data => exact h.2.2 x hx
+  | rs k' p shards block a b => exact h.2.2.2.2 x hx
+  | rq s k' e' ss pushes data => exact h.2.2.2.2.2 x hx
+  | raptor k' bs pushes data => exact h.2.2.2 x hx
 
 theorem slotsOK_set0 (sym : Nat → Bytes) (l : List (Option Bytes)) (j : Nat) (h : SlotsOK sym 0 l) :
     SlotsOK sym 0 (l.set j (some (sym j))) := by
   have := slotsOK_set sym 0 l j h
   simpa using this
 
-theorem decOK_push (c : Codec) {sym : Nat → Bytes} {k e sbn : Nat} {D : Bytes} (hc : CodecOK c sym k e sbn D)
-    (d : Dec) (esi : Nat) (h : DecOK sym k e sbn D d) : DecOK sym k e sbn D (d.pushSymbol c (sym esi) esi) := by
+theorem decOK_push (c : Codec) {sch : Scheme} {sym : Nat → Bytes} {k e sbn : Nat} {D : Bytes} (hc : CodecOK c sch sym k e sbn D)
+    (d : Dec) (esi : Nat) (h : DecOK sch sym k e sbn D d) : DecOK sch sym k e sbn D (d.pushSymbol c (sym esi) esi) := by
   cases d with
   | noCode shards nb data =>
     simp only [Dec.pushSymbol]
@@ -58,36 +58,36 @@ theorem decOK_push (c : Codec) {sym : Nat → Bytes} {k e sbn : Nat} {D : Bytes}
       · exact h
       · split
         · exact h
-        · exact ⟨h.1, h.2.1, slotsOK_set0 sym shards esi h.2.2.1, h.2.2.2⟩
+        · exact ⟨h.1, h.2.1, h.2.2.1, slotsOK_set0 sym shards esi h.2.2.2.1, h.2.2.2.2⟩
   | rq s k' e' ss pushes data =>
     simp only [Dec.pushSymbol]
     split
     · exact h
-    · obtain ⟨h1, h2, h3, h4, _⟩ := h
+    · obtain ⟨hsch, h1, h2, h3, h4, _⟩ := h
       have hg : ∀ q ∈ pushes ++ [(esi, sym esi)], q.2 = sym q.1 := by
         intro q hq
         simp at hq
         cases hq with
         | inl hq => exact h4 q hq
         | inr hq => rw [hq]
-      refine ⟨h1, h2, h3, hg, ?_⟩
+      refine ⟨hsch, h1, h2, h3, hg, ?_⟩
       intro x hx
       subst h1; subst h2; subst h3
-      exact hc.rq ss _ x hg hx
+      exact hc.rq hsch ss _ x hg hx
   | raptor k' bs pushes data =>
     simp only [Dec.pushSymbol]
     split
     · exact h
-    · obtain ⟨h1, h4, h5⟩ := h
-      refine ⟨h1, ?_, h5⟩
+    · obtain ⟨hsch, h1, h4, h5⟩ := h
+      refine ⟨hsch, h1, ?_, h5⟩
       intro q hq
       simp at hq
       cases hq with
       | inl hq => exact h4 q hq
       | inr hq => rw [hq]
 
-theorem decOK_decode (c : Codec) {sym : Nat → Bytes} {k e sbn : Nat} {D : Bytes} (hc : CodecOK c sym k e sbn D)
-    (d : Dec) (h : DecOK sym k e sbn D d) : DecOK sym k e sbn D (d.decode c).1 := by
+theorem decOK_decode (c : Codec) {sch : Scheme} {sym : Nat → Bytes} {k e sbn : Nat} {D : Bytes} (hc : CodecOK c sch sym k e sbn D)
+    (d : Dec) (h : DecOK sch sym k e sbn D d) : DecOK sch sym k e sbn D (d.decode c).1 := by
   cases d with
   | noCode shards nb data =>
     simp only [Dec.decode]
@@ -105,50 +105,50 @@ theorem decOK_decode (c : Codec) {sym : Nat → Bytes} {k e sbn : Nat} {D : Byte
           exact concatShards_genuine sym 0 k shards out h.2.2.1 hco
         · exact h
   | rs k' p shards block a b =>
-    obtain ⟨hD, hk, hs, hb⟩ := h
+    obtain ⟨hsch, hD, hk, hs, hb⟩ := h
     subst hk
     simp only [Dec.decode]
     split
-    · exact ⟨hD, rfl, hs, hb⟩
+    · exact ⟨hsch, hD, rfl, hs, hb⟩
     · split
-      · exact ⟨hD, rfl, hs, hb⟩
+      · exact ⟨hsch, hD, rfl, hs, hb⟩
       · rename_i shards' hr
         have hs' : SlotsOK sym 0 shards' := by
           split at hr
-          · exact hc.rs p shards shards' hs hr
+          · exact hc.rs hsch p shards shards' hs hr
           · simp at hr; rw [← hr]; exact hs
         split
-        · exact ⟨hD, rfl, hs', hb⟩
+        · exact ⟨hsch, hD, rfl, hs', hb⟩
         · rename_i out hco
-          refine ⟨hD, rfl, hs', ?_⟩
+          refine ⟨hsch, hD, rfl, hs', ?_⟩
           intro x hx
           simp at hx
           rw [← hx, hD]
           exact concatShards_genuine sym 0 k' shards' out hs' hco
   | rq s k' e' ss pushes data => exact h
   | raptor k' bs pushes data =>
-    obtain ⟨h1, h4, _⟩ := h
+    obtain ⟨hsch, h1, h4, _⟩ := h
     simp only [Dec.decode]
-    refine ⟨h1, h4, ?_⟩
+    refine ⟨hsch, h1, h4, ?_⟩
     intro x hx
     subst h1
-    exact hc.r bs pushes x h4 hx
+    exact hc.r hsch bs pushes x h4 hx
 
 /-- every decoder a block holds is `DecOK` -/
-def BlockOK (sym : Nat → Bytes) (k e sbn : Nat) (D : Bytes) (b : Block) : Prop :=
-  ∀ d, b.dec = some d → DecOK sym k e sbn D d
+def BlockOK (sch : Scheme) (sym : Nat → Bytes) (k e sbn : Nat) (D : Bytes) (b : Block) : Prop :=
+  ∀ d, b.dec = some d → DecOK sch sym k e sbn D d
 
-theorem blockOK_fresh (sym : Nat → Bytes) (k e sbn : Nat) (D : Bytes) : BlockOK sym k e sbn D {} := by
+theorem blockOK_fresh (sch : Scheme) (sym : Nat → Bytes) (k e sbn : Nat) (D : Bytes) : BlockOK sch sym k e sbn D {} := by
   intro d hd; simp at hd
 
-theorem blockOK_deallocate {sym : Nat → Bytes} {k e sbn : Nat} {D : Bytes} (b : Block) :
-    BlockOK sym k e sbn D b.deallocate := by
+theorem blockOK_deallocate {sch : Scheme} {sym : Nat → Bytes} {k e sbn : Nat} {D : Bytes} (b : Block) :
+    BlockOK sch sym k e sbn D b.deallocate := by
   intro d hd; simp [Block.deallocate] at hd
 
 /-- `BlockDecoder::init` with the right number of source symbols (and the session's symbol length) -/
 theorem blockOK_init (c : Codec) {sym : Nat → Bytes} {k sbn : Nat} {D : Bytes} (o : Oti) (bs : Nat) (b b' : Block)
     (hD : (o.scheme = .noCode ∨ o.scheme = .rs28 ∨ o.scheme = .rs28us) → D = genuineConcat sym 0 k)
-    (hb : BlockOK sym k o.e sbn D b) (h : b.init c o k bs sbn = .ok b') : BlockOK sym k o.e sbn D b' := by
+    (hb : BlockOK o.scheme sym k o.e sbn D b) (h : b.init c o k bs sbn = .ok b') : BlockOK o.scheme sym k o.e sbn D b' := by
   unfold Block.init at h
   split at h
   · simp at h; rw [← h]; exact hb
@@ -162,30 +162,32 @@ theorem blockOK_init (c : Codec) {sym : Nat → Bytes} {k sbn : Nat} {D : Bytes}
       split at h
       · simp at h; rw [← h]
         intro d hd; simp at hd; rw [← hd]
-        exact ⟨hD (.inr (.inl hs)), rfl, slotsOK_replicate sym 0 _, by simp⟩
+        exact ⟨.inl hs, hD (.inr (.inl hs)), rfl, slotsOK_replicate sym 0 _, by simp⟩
       · simp at h
     · rename_i hs
       split at h
       · simp at h; rw [← h]
         intro d hd; simp at hd; rw [← hd]
-        exact ⟨hD (.inr (.inr hs)), rfl, slotsOK_replicate sym 0 _, by simp⟩
+        exact ⟨.inr hs, hD (.inr (.inr hs)), rfl, slotsOK_replicate sym 0 _, by simp⟩
       · simp at h
     · simp at h
-    · split at h
+    · rename_i hs
+      split at h
       · simp at h; rw [← h]
         intro d hd; simp at hd; rw [← hd]
-        exact ⟨rfl, rfl, rfl, by simp, by simp⟩
+        exact ⟨hs, rfl, rfl, rfl, by simp, by simp⟩
       · simp at h
-    · split at h
+    · rename_i hs
+      split at h
       · simp at h
       · simp at h; rw [← h]
         intro d hd; simp at hd; rw [← hd]
-        exact ⟨rfl, by simp, by simp⟩
+        exact ⟨hs, rfl, by simp, by simp⟩
 
 /-- `BlockDecoder::push` of a genuine symbol -/
-theorem blockOK_push (c : Codec) {sym : Nat → Bytes} {k e sbn : Nat} {D : Bytes} (hc : CodecOK c sym k e sbn D)
-    (b b' : Block) (esi : Nat) (hb : BlockOK sym k e sbn D b) (h : b.push c (sym esi) esi = some b') :
-    BlockOK sym k e sbn D b' := by
+theorem blockOK_push (c : Codec) {sch : Scheme} {sym : Nat → Bytes} {k e sbn : Nat} {D : Bytes} (hc : CodecOK c sch sym k e sbn D)
+    (b b' : Block) (esi : Nat) (hb : BlockOK sch sym k e sbn D b) (h : b.push c (sym esi) esi = some b') :
+    BlockOK sch sym k e sbn D b' := by
   unfold Block.push at h
   split at h
   · simp at h; rw [← h]; exact hb
@@ -202,8 +204,8 @@ theorem blockOK_push (c : Codec) {sym : Nat → Bytes} {k e sbn : Nat} {D : Byte
         intro d' hd'; simp at hd'; rw [← hd']
         exact h1
 
-theorem blockOK_sourceBlock {sym : Nat → Bytes} {k e sbn : Nat} {D : Bytes} {b : Block}
-    (hb : BlockOK sym k e sbn D b) (x : Bytes) (hx : b.sourceBlock = some x) : x = D := by
+theorem blockOK_sourceBlock {sch : Scheme} {sym : Nat → Bytes} {k e sbn : Nat} {D : Bytes} {b : Block}
+    (hb : BlockOK sch sym k e sbn D b) (x : Bytes) (hx : b.sourceBlock = some x) : x = D := by
   unfold Block.sourceBlock at hx
   split at hx
   · simp at hx
